@@ -100,14 +100,20 @@ def make_valid(rng):
             "disj": rng.choice(["Maximum", "AlgebraicSum", "BoundedSum"]), "rows": [row]}
 
 
+# every character `str.isspace` accepts separates tokens (`str.split()`, the `\\s` of `format_infix`)
+BLANKS = [" ", "  ", "\t", " \t ", "\x0b", "\x0c", "\x1c", "\x1f", "\x85", "\xa0", "\u2003", "\u2028", "\u3000"]
+
+
 def spell(tokens, rng=None):
-    """tokens -> text; parentheses may touch their neighbours"""
+    """tokens -> text; parentheses may touch their neighbours; now and then an unusual white-space character"""
     out = []
     for i, t in enumerate(tokens):
         if i:
             p = tokens[i - 1]
             if rng is not None and ((p == "(" and t not in "()") or (t == ")" and p not in "()")) and rng.random() < 0.5:
                 out.append("")
+            elif rng is not None and rng.random() < 0.03:
+                out.append(rng.choice(BLANKS))
             else:
                 out.append(" ")
         out.append(t)
